@@ -23,4 +23,15 @@ theorem queues_tied :
     Gen.Queues.dispatchSelect = ["h.consumer <- msg", "default"] ∧
     Flood.consumerCap = 10 ∧ Flood.mailboxCap = 10 := ⟨rfl, rfl, rfl, rfl⟩
 
+/-- the refreshes of the service list (`C19Refresh.step`): `updateLoop` answers an announcement by calling
+    `updateServiceList` itself — no goroutine: one refresh at a time, in the order of the announcements —, which
+    fetches the list and then stores it under the list's lock -/
+theorem refresh_flows :
+    Gen.Session.updateLoopFlow =
+      ["recv s.removed", "use removed", "if !ok {", "return ", "}", "call s.updateServiceList",
+       "recv s.added", "use added", "if !ok {", "return ", "}", "call s.updateServiceList"] ∧
+    Gen.Session.updateServiceListFlow =
+      ["call s.Directory.Services", "if err != nil {", "call s.Terminate", "if err != nil {", "}", "}",
+       "serviceListMutex.Lock", "assign serviceList", "serviceListMutex.Unlock"] := by decide
+
 end QiVerif.Tie.C19
